@@ -56,6 +56,49 @@ static Plan gen_fileset(const std::string &prop, const std::string &tier, uint64
 	int slot_h[MAXS] = { -1, -1, -1, -1, -1, -1 };
 	auto pick_handle = [&]() { int h; do h = (int)r.below(MAXH); while (!halive[h]); return h; };
 	auto key = [&]() { char t[32]; snprintf(t, sizeof t, "@k%d:%d", (int)r.below(200), r.chance(1, 2) ? 0 : (int)r.below(8)); return std::string(t); };
+	// half of the plans are structured: change the set, force or wait for a reload, then read every handle's view
+	// completely - so that each version of the setfile is compared in full, not only where random reads happen to fall;
+	// now and then an iterator is left open across a change (it must keep its snapshot and hold reloads back)
+	if (r.chance(1, 2)) {
+		int cycles = 2 + (int)r.below(6);
+		int pinned = -1;
+		for (int c = 0; c < cycles; c++) {
+			if (c > 0) newver();
+			if (r.chance(1, 5)) {
+				int nh = -1;
+				for (int k = 0; k < MAXH; k++) if (!halive[k]) { nh = k; break; }
+				if (nh >= 0) {
+					uint32_t iv = ivals[r.below(6)];
+					p.op("dup", { std::to_string(pick_handle()), std::to_string(nh), std::to_string(r.chance(1, 3) ? 1 + r.below(2) : 0), std::to_string(r.chance(1, 4) ? 1 + r.below(2) : 0), std::to_string(iv), std::to_string(r.chance(1, 2) ? 0 : 1 + r.below(3)), std::to_string(r.chance(1, 4) ? 1 : 0) });
+					halive[nh] = true; hint[nh] = iv;
+				}
+			}
+			int h = pick_handle();
+			if (hint[h] != NEVER && r.chance(1, 3)) {
+				char t[32]; snprintf(t, sizeof t, "%lld", ((long long)hint[h] + 2) * 1000000000LL + (long long)r.below(1000000000));
+				p.op("advance", { t });
+			} else p.op(r.chance(4, 5) ? "reloadnow" : "reload", { std::to_string(h) });
+			if (pinned >= 0 && r.chance(1, 2)) { p.op("next", { std::to_string(pinned), "250" }); p.op("close", { std::to_string(pinned) }); pinned = -1; }
+			for (int k = 0; k < MAXH; k++) {
+				if (!halive[k] || r.chance(1, 6)) continue;
+				int s = 1 + (int)r.below(MAXS - 1);
+				if (s == pinned) continue;
+				int kind = r.chance(3, 4) ? 0 : 2 + (int)r.below(2);
+				p.op("open", { std::to_string(k), std::to_string(s), std::to_string(kind), kind == 0 ? "x" : key(), kind == 3 ? key() : "x" });
+				p.op("next", { std::to_string(s), "250" });
+				if (pinned < 0 && r.chance(1, 6)) pinned = s;	// stays open across the next change
+				else p.op("close", { std::to_string(s) });
+			}
+			if (r.chance(1, 8)) {
+				int alive = 0;
+				for (int k = 0; k < MAXH; k++) alive += halive[k];
+				int hd = pick_handle();
+				if (alive >= 2) { p.op("destroy", { std::to_string(hd) }); halive[hd] = false; if (pinned >= 0) { p.op("close", { std::to_string(pinned) }); pinned = -1; } }
+			}
+		}
+		p.seti("structured", 1);
+		return p;
+	}
 	for (int i = 0; i < nops; i++) {
 		uint64_t d = r.below(100);
 		int h = pick_handle();
